@@ -107,7 +107,7 @@ SPEC = {
     "assumptions": [
         "the Lean machine `run` of Model/Adapter.lean mirrors the generated adapter functions; agreement (all user-action calls, full AST shape) is observed only on the few grammars compiled per run",
         "user-defined types (`: Type`), %nt_type and minimize_boxed_types are out of scope; token identity is the byte offset of the token",
-        "the theorems assume the attribute discipline `attrsWF` (decidable; evaluated by the oracle for every explored expanded grammar, after left factoring / augmentation) and, for `start_action_once`, `startIsolated`",
+        "the theorems assume the attribute discipline `attrsWF` (decidable; evaluated by the oracle for every explored expanded grammar, after left factoring / augmentation) and, for `start_action_once`, `startIsolated`; that canonicalisation establishes `attrsWF` is NOT proved (full statement `CanonEstablishesAttrsWF`, instance `canon_establishes_attrsWF_partial`)",
         "LL(k): the trace is tied to the parser model by Props/C02.ll_tree_actions (`DS`); LALR(1): the theorems are about the post-order trace of a derivation forest — that the LR driver emits such a trace is C03's statement, here it is checked per run by the oracle (`forestOfTrace`, `wf`, trace equality)",
     ],
 }
